@@ -1961,6 +1961,46 @@ class FT(FuncTranslator):
                         break
         return None
 
+    def zero_leaves(self, ty, lv, off, n, out, depth=0):
+        """typed `= 0` stores for every scalar leaf of ty (lvalue lv, at byte offset off) inside [0, n).
+        False if a leaf straddles n or the layout is not known (unions, opaque types, huge arrays)."""
+        m = self.m
+        if off >= n:
+            return True
+        if depth > 12:
+            return False
+        k = ty.k
+        if k in ('int', 'ptr', 'fp'):
+            sz, _ = m.size_align(ty)
+            if off + sz > n:
+                return False
+            out.append('%s = 0;' % lv)
+            return True
+        if k == 'named':
+            if m.is_union(ty):
+                return False
+            body = m.named.get(ty.name)
+            if body is None:
+                return False
+            ty = body
+            k = ty.k
+        if k == 'lit':
+            for idx, f in enumerate(ty.fields):
+                if not self.zero_leaves(f, '%s.f%d' % (lv, idx), off + m.field_offset(ty, idx), n, out, depth + 1):
+                    return False
+            return True
+        if k == 'arr':
+            es, _ = m.size_align(ty.elem)
+            if es <= 0 or ty.n > 64:
+                return False
+            for i in range(ty.n):
+                if off + i * es >= n:
+                    break
+                if not self.zero_leaves(ty.elem, '%s.a[%d]' % (lv, i), off + i * es, n, out, depth + 1):
+                    return False
+            return True
+        return False
+
     def string_of(self, expr, t):
         # find a global mentioned in tokens whose init is a cstr
         for (k, v) in t:
@@ -1989,6 +2029,16 @@ class FT(FuncTranslator):
             self.emit('%s((void *)%s, (void *)%s, (uint64_t)%s);' % (fn, a[0], a[1], a[2]))
             return
         if name.startswith('llvm.memset.'):
+            # zero-filling (a prefix of) a typed object, e.g. the three pointers of an empty std::vector: typed stores
+            # of 0 keep every field a constant for CBMC; a byte-wise memset of part of a struct does not
+            org = self.arg_origins[0] if self.arg_origins else None
+            mm = re.fullmatch(r'\(\(uint64_t\)(\d+)ULL\)', a[2] or '')
+            if org is not None and mm and re.fullmatch(r'\(\(uint8_t\)0U\)', a[1] or '') and 0 < int(mm.group(1)) <= 512:
+                stores = []
+                if self.zero_leaves(org[0], '(*%s)' % org[1], 0, int(mm.group(1)), stores) and stores:
+                    for st in stores:
+                        self.emit(st)
+                    return
             self.emit('ll_memset((void *)%s, %s, (uint64_t)%s);' % (a[0], a[1], a[2]))
             return
         mm = re.match(r'llvm\.(s|u)(add|sub|mul)\.with\.overflow\.i(\d+)', name)
